@@ -30,6 +30,11 @@ Theorem C10_op_rule_int : forall k ins arg, const_only k = true ->
 Proof. exact op_rule_int. Qed.
 Print Assumptions C10_op_rule_int.
 
+(* an in-place target keeps its own flag *)
+Theorem C10_inplace_target_keeps_flag : forall c arg ins, inplace_const c arg ins = InitOk c.
+Proof. reflexivity. Qed.
+Print Assumptions C10_inplace_target_keeps_flag.
+
 (* along ANY well-formed history (ops, backward, clear_graph, null_grad in any order) no constant tensor ever holds a
    gradient: constants never receive gradients *)
 Theorem C10_constants_never_have_grad : forall h h1 h2 : list stmt,
